@@ -352,6 +352,8 @@ func (y *c18L2Sys) ops() []c18L2Op {
 		// every pair priced by everyone, under the newest stored timestamp: pairs that have no price yet
 		// are writable, the others are stale — the update is rejected part-way through its write loop
 		{"UpdateOracle(3 voters, all pairs, stale timestamp)", nil, "oracle-stale"},
+		// two of the voters also price a pair this chain does not track (an L2 follows a subset of L1's pairs)
+		{"UpdateOracle(3 voters, two also price an untracked pair)", nil, "oracle-untracked"},
 		{"RegisterPlan(h,o3,k3)", nil, "plan"},
 		{"NextBlock", nil, "block"},
 	}
@@ -411,6 +413,18 @@ func (y *c18L2Sys) Step(s *c18L2State, l engine.Letter) (*c18L2State, string, *e
 		case "oracle":
 			cs := &c15State{ctx: ctx, w: w, set: y.votes.initial, hostH: 10, flagOn: true}
 			votes := []c15Vote{{"hv1", shPriceP}, {"hv2", shPriceQ}, {"hv3", shNoBTC}}
+			newest := int64(0)
+			for _, p := range cs.prices(ctx) {
+				if p.has && p.ts.UnixNano() > newest {
+					newest = p.ts.UnixNano()
+				}
+			}
+			data, _ := y.votes.build(cs, votes, 11, newest+1_000_000_000)
+			r := w.Deliver(ctx, opchildtypes.NewMsgUpdateOracle(world.Addr("executor").String(), 11, data))
+			o, ok = obsOf(r), r.OK()
+		case "oracle-untracked":
+			cs := &c15State{ctx: ctx, w: w, set: y.votes.initial, hostH: 10, flagOn: true}
+			votes := []c15Vote{{"hv1", shWithUntracked}, {"hv2", shWithUntracked}, {"hv3", shPriceP}}
 			newest := int64(0)
 			for _, p := range cs.prices(ctx) {
 				if p.has && p.ts.UnixNano() > newest {
